@@ -1,9 +1,21 @@
-(* C13 - Capture-only generation yields only real captures (model-level part).
-   Exactness against the rules (legal captures, en passant included, along capture chains) is
-   decided by the correspondence with the specification oracle; the theorems below hold for
-   every board content. *)
-From Walleye Require Import Model.Successor Proofs.MoveGenProofs.
+(* C13 - Capture-only generation yields exactly the legal captures.
+   Proved for every Zobrist table and every well-formed position (pos_ok1, see C01): the moves generated in
+   capture-only mode are exactly the legal moves of the rules that capture something (a move onto an occupied
+   square, or an en-passant capture), each exactly once; castling and quiet moves never appear.  The remaining
+   theorems hold for every board content. *)
+From Walleye Require Import Model.Successor Spec.Abs Proofs.MoveGenProofs Proofs.GenerateAbs Proofs.LegalMoves Proofs.CaptureMode.
 Open Scope Z_scope.
+
+Theorem C13_captures_exactly_legal_captures : forall zt s,
+  pos_ok1 s ->
+  (forall mv, In (Some mv) (map desc (generate_moves zt s CapturesOnly)) <-> In mv (legal_captures (abs s))) /\
+  NoDup (map desc (generate_moves zt s CapturesOnly)).
+Proof. exact capture_moves_exact. Qed.
+
+(* the capture-only targets of a piece are the occupied ones among all its targets, in the same order *)
+Theorem C13_capture_targets_are_the_occupied_targets : forall b pc p,
+  get_moves pc p b CapturesOnly = filter (fun x => negb (is_empty (get b x))) (get_moves pc p b AllMoves).
+Proof. exact get_moves_captures. Qed.
 
 (* every target square produced in capture-only mode holds a piece of the other colour *)
 Theorem C13_capture_targets_are_enemy : forall pc p b x,
@@ -29,6 +41,8 @@ Proof.
   - right. exact H.
 Qed.
 
+Print Assumptions C13_captures_exactly_legal_captures.
+Print Assumptions C13_capture_targets_are_the_occupied_targets.
 Print Assumptions C13_capture_targets_are_enemy.
 Print Assumptions C13_en_passant_targets_recorded_square.
 Print Assumptions C13_same_successor_function.
